@@ -373,7 +373,9 @@ class RenderAnnotation(GenericTypeRewriter[str]):
     def rewrite(self, typ: type) -> str:
         rendered = super().rewrite(typ)
         if getattr(typ, "__module__", None) == "typing":
-            rendered = rendered.replace("typing.", "")
+            # the prefix of a typing name, not the tail of another module's name
+            # (mytyping.Foo, pkg.typing.Foo)
+            rendered = re.sub(r"(?<![\w.])typing\.", "", rendered)
         # Temporary hacky workaround for #76 to fix remaining NoneType hints by search-replace
         rendered = re.sub(r"\bNoneType\b", "None", rendered)
         return rendered
